@@ -92,7 +92,7 @@ def run(prog, rep, tier, cfg):
     CB = X.fn('state::State::check_balance_invariants', MI)
     rb = CB.ret_blocks()
     for fld in ('pre_commit_deposits', 'locked_funds', 'initial_pledge', 'fee_debt'):
-        X.guard('K6b', 'invariant:%s-non-negative' % fld, CB, rb, m_pred('is_negative', ['F:State.' + fld], False), '%s negative => Err' % fld)
+        X.guard('K6b', 'invariant:%s-non-negative' % fld, CB, rb, m_pred('is_negative', [], False, direct='State.' + fld), '%s negative => Err' % fld)
     X.guard('K6b', 'invariant:balance-covers-collateral', CB, rb, m_rel('lt', ['P:2'], ['F:State.pre_commit_deposits', 'F:State.locked_funds', 'F:State.initial_pledge', 'C:::add'], False),
             'balance < pre_commit_deposits + locked_funds + initial_pledge => Err')
     for f in prog.fns.values():
